@@ -230,19 +230,6 @@ theorem isAtomTok_shape (S : Schema) (a b : Tok) (h : a.shape = b.shape) :
 theorem isAtomTok_inline (S : Schema) (a : Tok) (h : isAtomTok S a = true) : isInlineTok S a = true := by
   cases a <;> simp_all [isAtomTok, isInlineTok]
 
-theorem ctxAux_shape : ∀ (l l' : List Tok) (st : List TypeId), l.map Tok.shape = l'.map Tok.shape →
-    ctxAux st l = ctxAux st l'
-  | [], [], _, _ => rfl
-  | [], _ :: _, _, h => by simp at h
-  | _ :: _, [], _, h => by simp at h
-  | a :: r, b :: r', st, h => by
-    simp only [List.map_cons, List.cons.injEq] at h
-    have ih := fun st => ctxAux_shape r r' st h.2
-    cases a <;> cases b <;> simp_all [Tok.shape, ctxAux]
-
-theorem sameMarkup_tyOf (S : Schema) (a b : Node) (h : a.sameMarkup b = true) : S.tyOf a = S.tyOf b := by
-  cases a <;> cases b <;> simp_all [Node.sameMarkup, Schema.tyOf, Node.tyOr]
-
 theorem Tok.withMarks_self (tok : Tok) : tok.withMarks tok.marks = tok := by
   cases tok <;> rfl
 
@@ -619,18 +606,6 @@ theorem planRemoveMarkSteps_toks (S : Schema) (doc doc' : Node) (f t : Nat) (sel
     exact rmTok_true S _
 
 /-! ### 2b. a list of add-mark steps (one mark) at token level -/
-
-theorem addToSet_idem (S : Schema) (m : Mark) (s : Marks) :
-    m.addToSet S (m.addToSet S s) = m.addToSet S s := by
-  rw [addToSet_eq S m s]
-  split
-  · rename_i hc
-    rw [addToSet_eq, if_pos hc]
-  · rw [addToSet_eq, if_pos]
-    rw [Bool.or_eq_true]
-    left
-    rw [List.any_eq_true]
-    exact ⟨m, (mem_insertByRank m m _).mpr (.inl rfl), by simp⟩
 
 /-- some add range of the list contains token `i` -/
 def adCovers (as : List (Nat × Nat)) (i : Nat) : Bool :=
@@ -1052,10 +1027,6 @@ theorem rmTok_mem (S : Schema) (P : Mark → Bool) (tok : Tok) (x : Mark) :
     exact ⟨fun h => ⟨h.1, fun _ => h.2⟩, fun h => ⟨h.1, h.2 hin⟩⟩
   · rw [if_neg hin]
     exact ⟨fun h => ⟨h, fun h' => absurd h' hin⟩, fun h => h.1⟩
-
-theorem isInSet_iff (x : Mark) (s : Marks) : x.isInSet s = true ↔ x ∈ s := by
-  simp only [Mark.isInSet, List.any_eq_true, beq_iff_eq]
-  exact ⟨fun ⟨y, hy, e⟩ => e ▸ hy, fun h => ⟨x, h, rfl⟩⟩
 
 theorem mem_addToSet_ne (S : Schema) (m : Mark) (s : Marks) (x : Mark) (hx : x ≠ m) :
     (x ∈ m.addToSet S s → x ∈ s) ∧ (x ∈ s → S.excludes m.ty x.ty = false → x ∈ m.addToSet S s) := by
